@@ -128,7 +128,9 @@ def fam_frag(counts, tier: str, rnd: random.Random) -> list[dict]:
     """C07: every split point of a read answer x second piece x delay x framing x keep-alive."""
     out = []
     seconds = ["exact", "plus1", "minus1", "corrupt", "other", "othertail", "none"]
-    delays = [(1, 1), (1, 2), (1, 1 + T - 1), (1, 1 + T), (1, 1 + T + 1), (T - 1, T)]
+    # (delay of the head, delay of the second piece) after the transmission; (2, T + 1), (T - 1, 2 T - 2): the second piece
+    # is later than one timeout after the transmission but within one timeout after the head
+    delays = [(1, 1), (1, 2), (1, 1 + T - 1), (1, 1 + T), (1, 1 + T + 1), (T - 1, T), (2, T + 1), (T - 1, 2 * T - 2)]
     for kind, fr in (("udp", "rtu"), ("udp", "aa55"), ("tcp", "tcp")):
         for n in counts:
             flen = 2 * n + (7 if fr == "rtu" else 9)
